@@ -92,47 +92,53 @@ impl FromStr for CsrImm {
 impl FromStr for Imm {
     type Err = ();
 
+    /// Read a decimal, hexadecimal (`0x`) or binary (`0b`) literal with an optional
+    /// leading `-`.
+    ///
+    /// The literal must denote a value between -2^31 and 2^32 - 1; it is read as its
+    /// two's-complement 32-bit value. Anything else is rejected.
     fn from_str(s: &str) -> Result<Self, Self::Err> {
         let s = s.to_lowercase();
         let s = s.as_str();
         let s = s.trim();
-        let (s, mul) = if let Some(stripped) = s.strip_prefix('-') {
-            (stripped, -1)
+        let (s, negative) = if let Some(stripped) = s.strip_prefix('-') {
+            (stripped, true)
         } else {
-            (s, 1)
+            (s, false)
         };
 
         if s == "zero" {
-            Ok(Imm(0))
-        } else if let Some(stripped) = s.strip_prefix("0x") {
-            if stripped.starts_with('-') {
-                Err(())
-            } else {
-                match u32::from_str_radix(stripped, 16) {
-                    #[allow(clippy::cast_possible_wrap)]
-                    Ok(i) => Ok(Imm(mul * i as i32)),
-                    Err(_) => Err(()),
-                }
-            }
-        } else if let Some(stripped) = s.strip_prefix("0b") {
-            if stripped.starts_with('-') {
-                Err(())
-            } else {
-                match u32::from_str_radix(stripped, 2) {
-                    #[allow(clippy::cast_possible_wrap)]
-                    Ok(i) => Ok(Imm(mul * i as i32)),
-                    Err(_) => Err(()),
-                }
-            }
-        } else {
-            if s.starts_with('-') {
-                return Err(());
-            }
-            match s.parse::<i32>() {
-                Ok(i) => Ok(Imm(mul * i)),
-                Err(_) => Err(()),
-            }
+            return Ok(Imm(0));
         }
+
+        let (digits, radix) = if let Some(stripped) = s.strip_prefix("0x") {
+            (stripped, 16)
+        } else if let Some(stripped) = s.strip_prefix("0b") {
+            (stripped, 2)
+        } else {
+            (s, 10)
+        };
+
+        // Only digits of the radix are allowed (no inner sign, no separators)
+        if digits.is_empty() || !digits.chars().all(|c| c.is_digit(radix)) {
+            return Err(());
+        }
+        let magnitude = u64::from_str_radix(digits, radix).map_err(|_| ())?;
+        if magnitude > u64::from(u32::MAX) {
+            return Err(());
+        }
+        let value = if negative {
+            -i64::try_from(magnitude).map_err(|_| ())?
+        } else {
+            i64::try_from(magnitude).map_err(|_| ())?
+        };
+        if value < i64::from(i32::MIN) {
+            return Err(());
+        }
+
+        // Two's-complement 32-bit reading (values above i32::MAX wrap to negatives)
+        #[allow(clippy::cast_possible_truncation)]
+        Ok(Imm(value as i32))
     }
 }
 
